@@ -372,6 +372,10 @@ def desugar(text, rules, counts):
             text, c = _r_ufcs(text)
         elif r == "R-UTF8":
             text, c = _r_utf8(text)
+        elif r == "R-TAKE":
+            text, c = _r_take(text)
+        elif r == "R-CLOSPEC":
+            c = text.count("vx_r:")  # done by closure_specs() with the declared types
         else:
             raise SpliceError("unknown desugaring " + r)
         # a listed desugaring without a site is not an error: the list says what MAY be rewritten in this function
@@ -702,10 +706,12 @@ def hoist_spawn(text, cfgs):
 
 
 def segment(text, cfg):
-    """R-SEGMENT: verify a suffix of a function body as a function of its own. The statements before the segment are DROPPED (stated
-    in the evidence); the segment's free variables become the declared parameter list (rustc checks it); the statements of the
-    segment are the source text, verbatim. cfg: name, params, and either `from` (the first top-level statement starting with this
-    text) or `after` (the statement following the first top-level statement that contains this text)."""
+    """R-SEGMENT: verify a contiguous run of top-level statements of a function body as a function of its own. The statements outside
+    the segment are DROPPED (stated in the evidence); the segment's free variables become the declared parameter list (rustc checks
+    it); the statements of the segment are the source text, verbatim. cfg: name, params, and either `from` (the first top-level
+    statement starting with this text) or `after` (the statement following the first top-level statement that contains this text);
+    optionally `until` (the segment stops before the first later statement starting with this text; then `epilogue` - the value
+    handed on to the rest of the function - closes the body and `returns` replaces the return type)."""
     sh = FnShape(text)
     st = statements(sh.m, sh.body_open, sh.body_close)
     k = None
@@ -719,10 +725,25 @@ def segment(text, cfg):
             break
     if k is None or k >= len(st):
         raise SpliceError("R-SEGMENT %s: anchor statement not found" % cfg["name"])
+    end = sh.body_close
+    tail = text[sh.body_close:]
+    if cfg.get("until"):
+        e = None
+        for i in range(k + 1, len(st)):
+            if _ws(text[st[i][0]:st[i][1]]).startswith(_ws(cfg["until"])):
+                e = i
+                break
+        if e is None:
+            raise SpliceError("R-SEGMENT %s: `until` statement not found" % cfg["name"])
+        end = st[e][0]
+        tail = cfg.get("epilogue", "") + "\n    }\n"
     mt = re.search(r"\bfn\s+(\w+)", sh.m)
     head = text[:mt.start(1)] + cfg["name"] + text[mt.end(1):sh.params_open]
+    sig_tail = text[sh.params_close + 1:sh.body_open + 1]
+    if cfg.get("returns"):
+        sig_tail = " -> " + cfg["returns"] + " {"
+    new = head + "(" + cfg["params"] + ")" + sig_tail + "\n        " + cfg.get("prologue", "") + text[st[k][0]:end] + tail
     first_line_off = text.count("\n", 0, st[k][0])
-    new = head + "(" + cfg["params"] + ")" + text[sh.params_close + 1:sh.body_open + 1] + "\n        " + cfg.get("prologue", "") + text[st[k][0]:]
     return new, first_line_off
 
 
@@ -759,3 +780,48 @@ def _r_utf8(text):
     for (a, b) in reversed(sites):
         text = text[:a] + "vx_from_utf8()" + text[b:]
     return text, len(sites)
+
+
+def _r_take(text):
+    """R-TAKE: `X.into_iter().take(N).collect::<Vec<_>>()` becomes `vx_take(X, N)` (the first min(N, len) elements, in order)."""
+    m = mask(text)
+    sites = list(re.finditer(r"(\b\w+)\s*\.\s*into_iter\s*\(\s*\)\s*\.\s*take\s*\(\s*(\w+)\s*\)\s*\.\s*collect\s*::\s*<\s*Vec\s*<\s*_\s*>\s*>\s*\(\s*\)", m))
+    for mt in reversed(sites):
+        text = text[:mt.start()] + "vx_take(%s, %s)" % (mt.group(1), mt.group(2)) + text[mt.end():]
+    return text, len(sites)
+
+
+def closure_specs(text, specs):
+    """R-CLOSPEC: the closure passed to a named call (`X.retain(|..| E)`, `X.sort_by(|..| E)`) whose body is one pure expression gets
+    its parameter types, a named result and `ensures result == (E')` spelled out, so that the assumed contracts of Vec::retain /
+    sort_by can speak about it: `|x| E` becomes `|x: T| -> (vx_r: R) ensures vx_r == (E') { E }`. The closure is found by the call it
+    is passed to; parameter NAMES and E are taken from the source, the types are declared in unit.toml (rustc checks them); E' is E
+    with `A.cmp(&B)` written as the spec function `cmp_spec(&A, &B)` (the ensures is PROVED against the body by Verus)."""
+    n = 0
+    for sp in specs:
+        call = sp["call"]
+        at = text.find(call)
+        if at < 0:
+            raise SpliceError("R-CLOSPEC: call not found: " + call)
+        m = mask(text)
+        po = at + len(call) - 1
+        if m[po] != "(":
+            raise SpliceError("R-CLOSPEC: `call` must end with the opening parenthesis")
+        pc = match_close(m, po)
+        inner = text[po + 1:pc]
+        mt = re.match(r"\s*\|([^|]*)\|\s*(.*?)\s*$", inner, re.S)
+        if not mt:
+            raise SpliceError("R-CLOSPEC: argument of %s is not a closure" % call)
+        names = [x.strip() for x in mt.group(1).split(",") if x.strip()]
+        types = [x.strip() for x in sp["types"]]
+        if len(names) != len(types):
+            raise SpliceError("R-CLOSPEC: %s: %d parameters, %d declared types" % (call, len(names), len(types)))
+        body = mt.group(2)
+        if body.startswith("{"):
+            raise SpliceError("R-CLOSPEC: %s: closure body is a block, not a single expression" % call)
+        spec_body = re.sub(r"((?:\w+\.)*\w+)\.cmp\(\s*&((?:\w+\.)*\w+)\s*\)", r"vstd::std_specs::cmp::OrdSpec::cmp_spec(&\1, &\2)", body)
+        params = ", ".join("%s: %s" % (a, b) for a, b in zip(names, types))
+        rep = "|%s| -> (vx_r: %s) ensures vx_r == (%s) { %s }" % (params, sp["ret"], spec_body, body)
+        text = text[:po + 1] + rep + text[pc:]
+        n += 1
+    return text, n
